@@ -88,7 +88,12 @@ def link_events(prog, func, inline=True):
             hev = mover_helper(prog, g)
             if not hev or len(n.ast.value.args) != len(g.params) or n.ast.value.keywords:
                 continue
-            mapping = dict(zip(g.params, n.ast.value.args))
+            mapping = {}
+            for prm, arg in zip(g.params, n.ast.value.args):
+                if path(arg) is None and not isinstance(arg, ast.Constant):
+                    # a computed argument is evaluated once and bound to the parameter: stand-in name
+                    arg = ast.copy_location(ast.Name(id='%s@%d' % (prm, n.ast.value.lineno), ctx=ast.Load()), arg)
+                mapping[prm] = arg
             for e in hev:
                 d = dict((k, v) for k, v in e.__dict__.items() if k not in ('kind', 'node'))
                 for k in ('x', 'q', 'p', 'value'):
